@@ -108,7 +108,12 @@ def discharge(obls, timeout_ms=20000, seed=0, retries=((60000, 1),), use_cvc5=Tr
     todo = [ob for ob in real if id(ob) not in hset] + left
     for ob in todo:
         ob._stage, ob._full = "z3(ematch)", True
-    todo = _stage(p, todo, lambda ob: (ob.smt, min(timeout_ms, 10000), seed, "z3", None, "ematch"))
+    # z3's search is chaotic on these VCs (dropping an irrelevant hypothesis can turn 10 s into 0.1 s), so the
+    # E-matching stage is a small portfolio of seeds with short budgets before the expensive default strategy
+    for i, tmo in enumerate((4000, 4000, 8000, min(timeout_ms, 15000))):
+        for ob in todo:
+            ob._stage = "z3(ematch,seed+%d)" % i
+        todo = _stage(p, todo, lambda ob: (ob.smt, tmo, seed + 11 * i, "z3", None, "ematch"))
     for ob in todo:
         ob._stage = "z3"
     todo = _stage(p, todo, lambda ob: (ob.smt, timeout_ms, seed, "z3", None, "auto"))
